@@ -374,10 +374,14 @@ def base_files():
     files.append(pfile.build([d(0x09, 0x40, b'\x00\x00\x00\x01' * 3, seg=4, gran=4), d(0x31, 0x20, b'\x07', seg=2)]))
     files.append(pfile.build([d(0x11, 0, b'\x01\x02', short=True), d(0x01, 0x10, b'\x4e\x71')]))
     files.append(pfile.build([d(0x11, 0x200, b''), d(0x11, 0x200, b'\x60')]))
+    # a relocation-info record (type $85: three 32-bit counts, then the entries) in front of a data record
+    plain = pfile.build([d(0x11, 0x1000, b'\x01\x02')])
+    files.append(plain[:2] + b'\x85' + struct.pack('<III', 0, 0, 4) + b'abc\x00' + plain[2:])
     return files
 
 
 E_EDIT_VALUES = [0x00, 0x01, 0x7f, 0x80, 0x81, 0x85, 0x86, 0xff]
+E_EDIT4_VALUES = [0xffffffff, 0xfffffff3, 0xfffffff0, 0x80000000, 0x7fffffff, 0x10000000]
 E_TOOLS = [
     ('plist', lambda f: [f]),
     ('pbind', lambda f: [f, 'out.p']),
@@ -401,6 +405,10 @@ def pool_e():
             for pos in range(min(len(buf), 64)):
                 for v in range(len(E_EDIT_VALUES)):
                     cases.append(('E', fi, ti, 'set', pos, v))
+            # 32-bit fields (lengths, counts, addresses) replaced as a whole
+            for pos in range(min(len(buf) - 3, 40)):
+                for v in range(len(E_EDIT4_VALUES)):
+                    cases.append(('E', fi, ti, 'set4', pos, v))
     return cases
 
 
@@ -789,6 +797,8 @@ def case_e(ctx, member):
         if buf[a] == E_EDIT_VALUES[b]:
             return
         buf[a] = E_EDIT_VALUES[b]
+    elif kind == 'set4':
+        buf[a:a + 4] = struct.pack('<I', E_EDIT4_VALUES[b])
     ctx.write('in.p', bytes(buf))
     for n in ('out.p', 'out.bin', 'out.hex'):
         try:
@@ -808,7 +818,7 @@ def case_e(ctx, member):
     r = ctx.run(tool, mk('in.p'), timeout=12)
     out.obs['tool_runs'] += 1
     out.sets['tools'].add(tool)
-    tag = 'E:file%d:%s:%s@%d=%s' % (fi, tool, kind, a, E_EDIT_VALUES[b] if kind == 'set' else '')
+    tag = 'E:file%d:%s:%s@%d=%s' % (fi, tool, kind, a, E_EDIT_VALUES[b] if kind == 'set' else (E_EDIT4_VALUES[b] if kind == 'set4' else ''))
     if r.timed_out:
         # the automatic re-run with 200 s also expired: a file of <200 bytes cannot describe that much work
         out.violate('hang:%s:%s' % (tool, 'truncated-file' if kind == 'cut' else 'edited-file'),
